@@ -81,7 +81,7 @@ func (l *jobNamespaceLister) Get(name string) (*execution.Job, error) {
 type JobInformer struct {
 	executioninformers.JobInformer
 	Inf *SharedInformer
-	L   *JobLister
+	L   executionlisters.JobLister
 }
 
 func (i *JobInformer) Informer() cache.SharedIndexInformer { return i.Inf }
